@@ -31,7 +31,7 @@ RULES_DOC.update({
     "R4": "create routines: error => out-handle untouched or NULL-handle constant; success => new handle stored last",
     "R5": "allocation results never feed assertions (lazy-stack FIXME sites only in the lazy-stack configuration)",
 })
-VARIANTS = ["lazy_stack", "no_ext_thread"]
+VARIANTS = ["lazy_stack", "no_ext_thread", "no_mem_pool", "tool_interface"]
 TECHNIQUE = ("compile-fail witness (-Werror=unused-result) + path-sensitive typestate (resource ownership with constant "
              "propagation) over clang CFG facts")
 
